@@ -2,11 +2,14 @@
 
    new kind=var alts=<letters of i f t m> n=N       N default-constructed variants ("slots")
        emplace s=K i=I v=N [via=type]   assign|ctor s=K from=J mv=0|1   swap s=K with=J   rel s=K with=J
-       conv s=K a=<i s l f t m> v=N how=ctor|assign          converting constructor / assignment
+       conv s=K a=<i s l f t m c d a b q x> v=N how=ctor|assign [cat=l|r]
+                                       converting constructor / assignment from a named object `a` of that type, as an lvalue
+                                       (cat=l) or `std::move(a)` (default); the answer is `ok a=<a afterwards>` or `nc`
        get_if s=K i=I [via=type]   holds s=K i=I   visit s=[K,..] [idx=1]
+       visitp s=K pos=0|1|2 v=N [idx=1]   visit with a non-variant int: (n, v) / (v, n) / (n, n+1)
        vcat s=[K,..] q=[Q,..] vis=cat|take     value categories (alts it, qx, id, tif only): variant K visited as Q
    new kind=opt alts=<i|f|t|m> n=N                  optional<T> slots and partner optional<U> slots
-       reset s=K   null s=K how=ctor|assign   emplace s=K v=N   val s=K a=.. v=N how=ctor|assign
+       reset s=K   null s=K how=ctor|assign   emplace s=K v=N   val s=K a=.. v=N how=ctor|assign [cat=l|r]   value s=K
        assign|ctor s=K from=J mv=..   swap s=K with=J [via=member]   pset j=J [v=N]
        conv s=K from=J how=ctor|assign mv=..   rel s=K with=J   relm s=K with=J   reln s=K   relv s=K a=own|i v=N
        has s=K   value_or s=K v=N [mv=1]   and_then s=K f=inc|none   or_else s=K [v=N] [mv=1]   ocat s=K q=Q [take=1]
@@ -16,6 +19,7 @@
    new kind=exp alts=<TE> n=N                       expected<T,E> slots
        ctor_def|ctor_val|ctor_err s=K [v=N]   emplace s=K v=N   assign|ctor   swap   assign_unex s=K v=N
        has s=K   value_or s=K v=N [mv=1]   and_then s=K f=inc|fail [v=N]   or_else s=K f=recover|same [v=N]   ecat s=K q=Q
+       rel s=K with=J (== and !=)   value s=K
    every answer is followed by ` |` and the state of all slots.
 
    values: i int, l long, s short (payload = value); f float (payload p = p/2, 1000 = NaN); t Trk, m Mo
@@ -150,6 +154,14 @@ def convTab (a t : Ty) : Option Cand :=
 def ctorOK (a t : Ty) : Bool :=
   a == t || (a.isArith && t.isArith) || (a.isArith && t.isClass)
 
+/-- candidate for `forward<A>(a)` with `a` an lvalue (`lv?`) or rvalue: an lvalue of the move-only kind cannot be copied -/
+def candOf (a : Ty) (lv? : Bool) (t : Ty) : Option Cand :=
+  if a == t && lv? && t == .mo then none else convTab a t
+
+/-- the argument as the selected alternative `t` sees it: of its own type (copied / moved) or converted to it -/
+def argOf (a t : Ty) (lv? : Bool) (arg : Val) : Arg × Val :=
+  if a == t then (if lv? then .lval else .rval, arg) else (.conv, convV t arg)
+
 structure Live where
   kind : String
   tys : List Ty
@@ -220,6 +232,8 @@ def stepVar (lv : Live) (st : List (V Val)) (l : Line) : Option (DState × Strin
     | some k, some i, some n =>
       (tyAt lv i).map fun t =>
         let x := mkArg t n
+        -- emplace<T>: ill-formed unless T occurs exactly once in Ts
+        if (l.get? "via").isSome && lv.tys.count t != 1 then fin lv (.ok ("nc", st)) "nc" lv else
         fin lv ((mop lv st (.emplace k i x)).map fun st' => ("ret=" ++ showV x, st')) ("ret=" ++ showV x)
           { lv with s := Spec.step el fb lv.s (.emplace k i x) }
     | _, _, _ => none
@@ -248,48 +262,37 @@ def stepVar (lv : Live) (st : List (V Val)) (l : Line) : Option (DState × Strin
       | _, _, _, _ => none
     | _, _ => none
   | "conv" =>
+    -- `v = forward<A>(a)` / `variant(forward<A>(a))` for a named object `a` of type A (cat=l: `a`, cat=r: `std::move(a)`);
+    -- the answer shows `a` afterwards
     match l.nat? "s", (l.str? "a").bind (fun s => s.toList.head?.bind tyOf), l.int? "v", l.str? "how" with
     | some k, some a, some n, some how =>
       if k ≥ st.length then none else
-      let cands := lv.tys.map (convTab a)
+      let lv? := (l.str? "cat").getD "r" == "l"
+      let cands := lv.tys.map (candOf a lv?)
       let arg := mkV a n
-      let mres : Except Err (String × List (V Val)) :=
-        match select cands with
-        | none => .ok ("nc", st)
-        | some i =>
-          match lv.tys[i]? with
-          | none => .error .oob
-          | some t =>
-            let x := convV t arg
-            if how == "ctor" then (mop lv st (.make k i x)).bind ok
-            else if t.isClass then do
-              -- operator=(T&&): `get<j>(*this) = forward<T>(t)` when T_j is held (a temporary T_j(arg) is move
-              -- assigned), `emplace<T_j>(forward<T>(t))` otherwise
-              let d ← rd st k
-              if d.idx == i then do
-                let cur ← getAt d i
-                let st' ← put st k { d with val := (el.ma cur x).1 }
-                ok st'
-              else (mop lv st (.emplace k i x)).bind ok
-            else do                                                      -- scalar T_j: variant(arg) then move assignment
-              let d ← rd st k
-              let (d', _) ← assign lv.cfg el true d ⟨i, x⟩
-              let st' ← put st k d'
-              ok st'
-      let (sres, s') : String × List (V Val) :=
-        match Spec.select cands with
-        | none => ("nc", lv.s)
-        | some i =>
-          match lv.tys[i]? with
-          | none => ("nc", lv.s)
-          | some t =>
-            -- [variant.assign]/13: T_j held: assign `forward<T>(t)` to it; otherwise emplace<j>; [variant.ctor]: construct
-            let x := convV t arg
-            let x' := match lv.s[k]? with
-              | some sd => if how == "assign" && sd.idx == i then (el.ma sd.val x).1 else x
-              | none => x
-            ("ok", Spec.step el fb lv.s (.emplace k i x'))
-      some (fin lv mres sres { lv with s := s' })
+      let asg := how == "assign"
+      match select cands, Spec.select cands with
+      | none, none => some (fin lv (.ok ("nc", st)) "nc" lv)
+      | some i, some si =>
+        match lv.tys[i]?, lv.tys[si]? with
+        | some t, some t' =>
+          let (cat, x) := argOf a t lv? arg
+          let (cat', x') := argOf a t' lv? arg
+          let op : Op Val := .conv k i t.isClass asg cat x
+          -- the hypothesis of convAssign_refines_partial / step_refines_partial for the detour through a temporary
+          if !(decide (Spec.ConvOK el st op)) then none else
+          let after (cat : Arg) (r : Val) : String := " a=" ++ showV (if cat == .conv then arg else r)
+          let mres : Except Err (String × List (V Val)) := do
+            let d ← rd st k
+            let r ← if asg then convAssign lv.cfg el t.isClass cat d i x else convCtor lv.cfg el cat i x
+            let st' ← mop lv st op
+            .ok ("ok" ++ after cat r.2, st')
+          let sarg : Val := match lv.s[k]? with
+            | some sd => if asg then (Spec.convAssignV el fb cat' sd si x').2 else (Spec.convCtorV el cat' si x').2
+            | none => arg
+          some (fin lv mres ("ok" ++ after cat' sarg) { lv with s := Spec.step el fb lv.s (.conv k si t'.isClass asg cat' x') })
+        | _, _ => none
+      | _, _ => none     -- model and spec selection differ: cannot happen (select_eq); reported as bad-op
     | _, _, _, _ => none
   | "get_if" =>
     match l.nat? "s", l.nat? "i" with
@@ -298,6 +301,7 @@ def stepVar (lv : Live) (st : List (V Val)) (l : Line) : Option (DState × Strin
       | some v, some sv =>
         if i ≥ lv.cfg.n then none else
         let f (o : Option Val) : String := match o with | some x => showV x | none => "null"
+        if (l.get? "via").isSome && (lv.tys[i]?).any (fun t => lv.tys.count t != 1) then some (fin lv (.ok ("nc", st)) "nc" lv) else
         some (fin lv ((getIf v i).map fun o => (f o, st)) (f (Spec.getIf sv i)) lv)
       | _, _ => none
     | _, _ => none
@@ -307,6 +311,7 @@ def stepVar (lv : Live) (st : List (V Val)) (l : Line) : Option (DState × Strin
       match st[k]?, lv.s[k]? with
       | some v, some sv =>
         if i ≥ lv.cfg.n then none else
+        if (lv.tys[i]?).any (fun t => lv.tys.count t != 1) then some (fin lv (.ok ("nc", st)) "nc" lv) else   -- holds_alternative<T>
         some (fin lv (.ok (fmtBool (holds v i), st)) (fmtBool (sv.idx == i)) lv)
       | _, _ => none
     | _, _ => none
@@ -326,6 +331,28 @@ def stepVar (lv : Live) (st : List (V Val)) (l : Line) : Option (DState × Strin
         some (fin lv mres ("calls=1 ret=1 " ++ String.join (svs.map fun v => item v.idx v.val)) lv)
       | _, _ => none
     | none => none
+  | "visitp" =>
+    -- non-variant arguments in visit: `variant_size` is 1 and `index` 0 for them, `get<0>` hands the argument on;
+    -- pos=0: visit(f, n, v)   pos=1: visit(f, v, n)   pos=2: visit(f, n, n+1) (all sizes 1: the single instantiation)
+    match l.nat? "s", l.nat? "pos", l.int? "v" with
+    | some k, some pos, some n =>
+      let withIdx := (l.nat? "idx").getD 0 != 0
+      match st[k]?, lv.s[k]? with
+      | some v, some sv =>
+        if pos > 2 then none else
+        let item (i : Nat) (x : Val) : String := (if withIdx then s!"{i}=" else "") ++ showV x ++ ","
+        let pl (m : Int) : V Val := ⟨0, mkV .int m⟩
+        let args (w : V Val) : List (Nat × V Val) :=
+          if pos == 0 then [(1, pl n), (lv.cfg.n, w)] else if pos == 1 then [(lv.cfg.n, w), (1, pl n)] else [(1, pl n), (1, pl (n + 1))]
+        let mres : Except Err (String × List (V Val)) := do
+          let vs := args v
+          let t ← visitWithIndex (vs.map (·.1)) (vs.map (·.2.idx))
+          if t.length ≠ vs.length then .error (.pre "visit: arity")
+          let items ← (vs.zip t).mapM fun ((_, w), i) => (getAt w i).map (item i)
+          .ok ("calls=1 ret=1 " ++ String.join items, st)
+        some (fin lv mres ("calls=1 ret=1 " ++ String.join ((args sv).map fun (_, w) => item w.idx w.val)) lv)
+      | _, _ => none
+    | _, _, _ => none
   | "vcat" =>
     -- value categories (0 T&, 1 T const&, 2 T&&, 3 T const&&): visit, unchecked_get and operator[] hand on the
     -- category of the variant they are given ([variant.visit], [variant.get]); a by-value visitor (`vis=take`)
@@ -381,34 +408,31 @@ def stepOpt (lv : Live) (st : List (V Val)) (l : Line) : Option (DState × Strin
     | some k, some n => if inR k then some (optDo lv st (.emplace k (mkArg T n)) ("ret=" ++ showV (mkArg T n))) else none
     | _, _ => none
   | "val" =>
+    -- `o = forward<A>(a)` / `optional<T>(forward<A>(a))` for a named object `a` (cat=l|r); the answer shows `a` afterwards
     match l.nat? "s", (l.str? "a").bind (fun s => s.toList.head?.bind tyOf), l.int? "v", l.str? "how" with
     | some k, some a, some n, some how =>
+      let lv? := (l.str? "cat").getD "r" == "l"
       if !inR k then none
-      else if !ctorOK a T then some (fin lv (.ok ("nc", st)) "nc" lv)
+      else if !ctorOK a T || (a == T && lv? && T == .mo) then some (fin lv (.ok ("nc", st)) "nc" lv)
       else
-        let x := convV T (mkV a n)
-        -- [optional.assign] (U&&): engaged: `**this = forward<U>(v)`; empty: construct from it
-        let sx : Val := match lv.so[k]? with
-          | some (some d) => if how == "assign" then (el.ma d x).1 else x
-          | _ => x
-        let lv' := { lv with so := Spec.ostep el lv.so (.emplace k sx) }
-        if how == "ctor" then some (fin lv ((mop lv st (.make k 1 x)).bind ok) "ok" lv')
-        else if T.isClass && a != T then                -- operator=(U&&): assign through when engaged, else emplace
-          let mres : Except Err (String × List (V Val)) := do
-            let d ← rd st k
-            if hasValue d then do
-              let cur ← deref d
-              let st' ← put st k { d with val := (el.ma cur x).1 }
-              ok st'
-            else (mop lv st (.emplace k 1 x)).bind ok
-          some (fin lv mres "ok" lv')
-        else                                        -- scalar T or U == T: optional(x) then move assignment
-          let mres : Except Err (String × List (V Val)) := do
-            let d ← rd st k
-            let (d', _) ← assign lv.cfg el true d ⟨1, x⟩
-            let st' ← put st k d'
-            ok st'
-          some (fin lv mres "ok" lv')
+        let arg := mkV a n
+        let (cat, x) := argOf a T lv? arg
+        let asg := how == "assign"
+        -- operator=(U&&) takes part in overload resolution unless T is scalar and U is T ([optional.assign]); otherwise
+        -- the argument is converted to a temporary optional that is move assigned
+        let direct := !(T.isArith && a == T)
+        let op : Spec.OOp Val := .val k asg direct cat x
+        if !(decide (Spec.ConvOK el st (Spec.optToVar nullv op))) then none else
+        let after (r : Val) : String := " a=" ++ showV (if cat == .conv then arg else r)
+        let mres : Except Err (String × List (V Val)) := do
+          let d ← rd st k
+          let r ← if asg then convAssign lv.cfg el direct cat d 1 x else convCtor lv.cfg el cat 1 x
+          let st' ← mop lv st (Spec.optToVar nullv op)
+          .ok ("ok" ++ after r.2, st')
+        let sarg : Val := match lv.so[k]? with
+          | some (some d) => if asg then (asgArg el cat d x).2 else (consArg el cat x).2
+          | _ => (consArg el cat x).2
+        some (fin lv mres ("ok" ++ after sarg) { lv with so := Spec.ostep el lv.so op })
     | _, _, _, _ => none
   | "assign" | "ctor" =>
     match l.nat? "s", l.nat? "from", l.nat? "mv" with
@@ -438,21 +462,15 @@ def stepOpt (lv : Live) (st : List (V Val)) (l : Line) : Option (DState × Strin
         if !inR k then none else
         -- [optional.assign] (optional<U>): source empty: reset; both engaged: `**this = *other`; else construct
         let sop : Spec.OOp Val := match src with
-          | some u =>
-            (match lv.so[k]? with
-             | some (some d) => if how == "assign" then .emplace k (el.ma d (convV T u)).1 else .emplace k (convV T u)
-             | _ => .emplace k (convV T u))
+          | some u => .val k (how == "assign") true .conv (convV T u)
           | none => .reset k
         let mres : Except Err (String × List (V Val)) := do
           -- ctor: `_var{nullopt}` then `if (other.has_value()) emplace(*other)`;
           -- assign: reset() / `**this = *other` when engaged / emplace(*other)
           let st0 ← if how == "ctor" then mop lv st (.make k 0 nullv) else .ok st
           let st1 ← match src with
-            | some u => do
-              let d ← rd st0 k
-              if how == "assign" && hasValue d then do
-                let cur ← deref d
-                put st0 k { d with val := (el.ma cur (convV T u)).1 }
+            | some u =>
+              if how == "assign" then mop lv st0 (Spec.optToVar nullv sop)     -- the member template: Model.convAssign, direct
               else mop lv st0 (.emplace k 1 (convV T u))
             | none => if how == "ctor" then .ok st0 else mop lv st0 (.emplace k 0 nullv)
           ok st1
@@ -512,17 +530,13 @@ def stepOpt (lv : Live) (st : List (V Val)) (l : Line) : Option (DState × Strin
       match st[k]?, lv.so[k]? with
       | some v, some sv =>
         if !mv && !lv.copyable then some (fin lv (.ok ("nc", st)) "nc" lv) else
-        -- the returned prvalue is copy constructed from `**this` / move constructed from `move(**this)`;
-        -- the fallback is `static_cast<T>(forward<U>(d))`: move constructed from the argument temporary
-        let ret (o : Option Val) : Val := match o with
-          | some x => if mv then (el.mc x).1 else el.cc x
-          | none => (el.mc (mkV T n)).1
+        -- Model.valueOrCat / Spec.valueOrCatO (theorem valueOrCat_eq)
         let mres : Except Err (String × List (V Val)) := do
-          let r ← valueOr v (mkV T n)
-          let st' ← if mv && hasValue v then put st k { v with val := (el.mc v.val).2 } else .ok st
-          .ok (showV (ret (if hasValue v then some r else none)), st')
-        let so' := if mv then lv.so.set k (sv.map fun x => (el.mc x).2) else lv.so
-        some (fin lv mres (showV (ret sv)) { lv with so := so' })
+          let (r, v') ← valueOrCat el mv v (mkV T n)
+          let st' ← put st k v'
+          .ok (showV r, st')
+        let (sr, so') := Spec.valueOrCatO el mv sv (mkV T n)
+        some (fin lv mres (showV sr) { lv with so := lv.so.set k so' })
       | _, _ => none
     | _, _ => none
   | "and_then" =>
@@ -546,18 +560,19 @@ def stepOpt (lv : Live) (st : List (V Val)) (l : Line) : Option (DState × Strin
       | some v, some sv =>
         if !mv && !lv.copyable then some (fin lv (.ok ("nc", st)) "nc" lv) else
         let sh (calls : Nat) (o : Option Val) : String := s!"calls={calls} " ++ (match o with | some x => showV x | none => "-")
-        -- `*this ? *this : f()` / `*this ? move(*this) : f()`
-        let mres : Except Err (String × List (V Val)) :=
-          (orElse v).bind fun o =>
-            match o with
-            | some x => do
-              let st' ← if mv then put st k { v with val := (el.mc x).2 } else .ok st
-              .ok (sh 0 (some (if mv then (el.mc x).1 else el.cc x)), st')
-            | none => .ok (sh 1 alt, st)
-        let so' := if mv then lv.so.set k (sv.map fun x => (el.mc x).2) else lv.so
-        some (fin lv mres (match sv with | some x => sh 0 (some (if mv then (el.mc x).1 else el.cc x)) | none => sh 1 alt)
-          { lv with so := so' })
+        -- Model.orElseCat / Spec.orElseCatO (theorem orElseCat_eq)
+        let mres : Except Err (String × List (V Val)) := do
+          let (r, v') ← orElseCat el mv v
+          let st' ← put st k v'
+          .ok ((match r with | some x => sh 0 (some x) | none => sh 1 alt), st')
+        let (sr, so') := Spec.orElseCatO el mv sv
+        some (fin lv mres (match sr with | some x => sh 0 (some x) | none => sh 1 alt) { lv with so := lv.so.set k so' })
       | _, _ => none
+  | "value" =>   -- etl::optional has no value(): known finding F-C07-no-checked-value-access
+    (l.nat? "s").bind fun k =>
+      match lv.so[k]? with
+      | some sv => some (fin lv (.ok ("nc", st)) (match sv with | some x => showV x | none => "throw") lv)
+      | none => none
   | "ocat" =>
     -- operator* and and_then hand on the value category of the optional ([optional.observe], [optional.monadic]);
     -- `take=1`: `T x = *<category>(o)` move constructs from an rvalue optional, copy constructs otherwise.  Observed.
@@ -636,16 +651,31 @@ def stepExp (lv : Live) (st : List (V Val)) (l : Line) : Option (DState × Strin
       match st[k]?, lv.se[k]? with
       | some v, some sv =>
         if !mv && T == .mo then some (fin lv (.ok ("nc", st)) "nc" lv) else
-        let mres : Except Err (String × List (V Val)) :=
-          if expHas v then do
-            let x ← expValueOr v (mkV T n)
-            let st' ← if mv then put st k { v with val := (el.mc x).2 } else .ok st
-            .ok (showV (if mv then (el.mc x).1 else el.cc x), st')
-          else (expValueOr v (mkV T n)).map fun d => (showV (el.mc d).1, st)
-        let (sres, se') := match sv with
-          | .val x => (showV (if mv then (el.mc x).1 else el.cc x), if mv then lv.se.set k (.val (el.mc x).2) else lv.se)
-          | .err _ => (showV (el.mc (mkV T n)).1, lv.se)
-        some (fin lv mres sres { lv with se := se' })
+        -- Model.expValueOrCat / Spec.valueOrCatE (theorem expValueOrCat_eq)
+        let mres : Except Err (String × List (V Val)) := do
+          let (r, v') ← expValueOrCat el mv v (mkV T n)
+          let st' ← put st k v'
+          .ok (showV r, st')
+        let (sr, se') := Spec.valueOrCatE el mv sv (mkV T n)
+        some (fin lv mres (showV sr) { lv with se := lv.se.set k se' })
+      | _, _ => none
+    | _, _ => none
+  | "value" =>   -- etl::expected has no value(): known finding F-C07-no-checked-value-access
+    (l.nat? "s").bind fun k =>
+      match lv.se[k]? with
+      | some sv => some (fin lv (.ok ("nc", st)) (match sv with | .val x => showV x | .err _ => "throw") lv)
+      | none => none
+  | "rel" =>     -- etl::expected has no operator==: known finding F-C07-expected-no-equality
+    match l.nat? "s", l.nat? "with" with
+    | some k, some j =>
+      match lv.se[k]?, lv.se[j]? with
+      | some a, some b =>
+        -- [expected.object.eq]: both values: *x == *y; both errors: x.error() == y.error(); otherwise false
+        let eq : Bool := match a, b with
+          | .val x, .val y => relOps .eq x y
+          | .err x, .err y => relOps .eq x y
+          | _, _ => false
+        some (fin lv (.ok ("nc", st)) (fmtBool eq ++ fmtBool (!eq)) lv)
       | _, _ => none
     | _, _ => none
   | "and_then" =>
@@ -790,7 +820,7 @@ def newLive (l : Line) : Option Live :=
                            m := .ok [], s := [], so := [], se := [], part := [], mr := [], sr := [], mcells := [], scells := [] }
       match kind with
       | "var" =>
-        if !(["if", "fi", "it", "ti", "tif", "ift", "tm", "iftm", "fm", "ic", "id", "ia", "ib", "qx", "cb"].contains alts) then none else
+        if !(["if", "fi", "it", "ti", "tif", "ift", "tm", "iftm", "fm", "ic", "id", "ia", "ib", "qx", "cb", "ii"].contains alts) then none else
         let d : V Val := ⟨0, mkV (tys.headD .int) 0⟩
         some { base with m := .ok (List.replicate n d), s := List.replicate n d }
       | "opt" =>
